@@ -18,4 +18,5 @@ INVARIANT XWalkIsBestMatch
 INVARIANT XNoLeak
 INVARIANT RejectIsNoOp
 INVARIANT TreeIsRef
+INVARIANT XSplitSound
 INVARIANT EmitTable
